@@ -436,6 +436,9 @@ func (e *engine) onMsg(m rpcsim.Msg) error {
 			for bid, n := range q.retBids {
 				e.bout[bid] -= n
 			}
+			// A had given the call up before the Return reached it (the two crossed): it keeps nothing of the results,
+			// so the answer's capability table does not hold A's own objects either
+			q.retCaps = nil
 		}
 		if q.returned {
 			delete(e.aqs, m.ID)
